@@ -56,7 +56,7 @@ def register(w):
                         "implies(not self.config.getboolean('handlers.ZIP.ZIPHandler', 'enabled'), not result)"],
                note="the archive path is a prefix of the filtered selector (so it is itself filtered, lemma prefix-secure) found by walking up the path; "
                     "the member path is None exactly when the selector names the archive itself; every probe (isfile, getfspath) gets a safe path",
-               props=["C16", "C01"])
+               props=["C16", "C01", "C05"])
     for m, ret in (("isdir", "bool"), ("getdirlist", "list[obj:GopherEntry]"), ("getentry", "obj:GopherEntry")):
         pass
     # ---- (c) selector -> member path ---------------------------------------------------------------------
